@@ -775,8 +775,19 @@ def parse_items(file):
             if p.accept("->"):
                 ret = p.type_()
             if p.at("where"):
+                wt = []
                 while not p.at("{") and not p.at(";"):
-                    p.next()
+                    wt.append(p.next().text)
+                # ---- phase 8: `where G: Bound, …`: the bound of a generic parameter declared without one
+                for gi, (gn, gb) in enumerate(generics):
+                    if not gb:
+                        for j in range(len(wt) - 1):
+                            if wt[j] == gn and wt[j + 1] == ":" and wt[j - 1] in ("where", ","):
+                                k = j + 2
+                                while k < len(wt) and wt[k] != ",":
+                                    k += 1
+                                generics[gi] = (gn, gb + wt[j + 2:k])
+                # ---- end phase 8
         except Untranslatable as e:
             # a signature outside the subset: the item is still indexed (by name), but cannot be translated
             sig_error = e.what
@@ -1154,6 +1165,7 @@ def mkseq(stmts, final):
 # Rust type name -> Lean type of the Model (generic parameter `NumericTypes` is fixed to DefaultNumericTypes)
 TYPE_MAP = {
     "()": "Unit",      # phase 6: `impl … for ()`
+    "NodeVisitor": "Unit",      # phase 8: `struct NodeVisitor(PhantomData)` (feature_serde/mod.rs)
     "char": "Char", "Token": "Token", "PartialToken": "PartialToken", "Peekable": "(List Char)", "Chars": "(List Char)",
     "usize": "Nat", "u64": "UInt64", "u32": "UInt32", "bool": "Bool", "DefaultNumericTypes": "Unit", "String": "Str", "str": "Str", "i64": "Int64", "f64": "Float",
     "Value": "Value", "ValueType": "ValueType", "Operator": "Operator", "Node": "Node", "EvalexprError": "Err",
@@ -1307,7 +1319,7 @@ PRIM_METHODS = {
 CLASS_TRAIT_METHODS = {("min", 1): ("Rs.min", "Rs.Min"), ("max", 1): ("Rs.max", "Rs.Max")}
 # phase 5: associated std functions of the primitives: `i64::from_str` (FromStr), `i64::from_str_radix(_, 16)`
 PRIM_PATHS = {("i64", "from_str"): (1, "Rs.i64_from_str"), ("i64", "from_str_radix"): (2, "Rs.i64_from_str_radix")}
-TRANSLATED_TRAITS = ("Display", "TryFrom", "Iterator", "EvalexprInt", "EvalexprFloat", "EvalexprNumericTypes", "IterateVariablesContext")
+TRANSLATED_TRAITS = ("Visitor", "Display", "TryFrom", "Iterator", "EvalexprInt", "EvalexprFloat", "EvalexprNumericTypes", "IterateVariablesContext")
 # free functions / associated functions, by path suffix
 BOUNDARY_PATHS = {
     # (tree-builder extension, after phase 5: `token::tokenize` is no longer a boundary call, it is translated; see FUEL_CALLS)
@@ -1478,6 +1490,7 @@ class World:
                  "function/mod.rs", "function/builtin.rs", "value/numeric_types/default_numeric_types.rs",
                  "token/mod.rs", "interface/mod.rs", "tree/iter.rs"]
         files += ["value/display.rs"]     # phase 7
+        files += ["feature_serde/mod.rs"]     # phase 8
         for f in files:
             try:
                 fns, enums = parse_items(f)
@@ -1711,7 +1724,9 @@ class FnTr:
             s_ = "Except Unit " + self.ltype(args[0], True)        # phase 5: `Result<T, ()>`
             return "(" + s_ + ")" if paren else s_
         if name in ("EvalexprResult", "Result") and args:
-            if name == "Result" and not (len(args) == 2 and type_head(args[1]) in ("EvalexprError", "Error")):
+            serde_err = (name == "Result" and len(args) == 2 and self.generic_bound(type_head(args[1])) is not None
+                         and "Error" in self.generic_bound(type_head(args[1])))     # phase 8: `E: de::Error` (see Rs.de_custom)
+            if name == "Result" and not serde_err and not (len(args) == 2 and type_head(args[1]) in ("EvalexprError", "Error")):
                 self.fail("Result with a foreign error type")
             s = "Res " + self.ltype(args[0], True)
             return "(" + s + ")" if paren else s
@@ -2587,6 +2602,10 @@ class FnTr:
                 and TYPE_MAP.get(self.item.impl_type) == "Unit"):
             return Atom("()")
         # ---- end phase 6
+        # ---- phase 8: `E::custom(error)` with `E: de::Error` (serde): boundary Rs.de_custom (the error value is kept; see Prelude)
+        if len(segs) == 2 and segs[1] == "custom" and n == 1 and "Error" in (self.generic_bound(segs[0]) or []):
+            return self.with_args(e.args, lambda a: App("Rs.de_custom", a))
+        # ---- end phase 8
         if segs[-2:] == ["Function", "new"] and n == 1:
             c = e.args[0]
             if c.kind != "closure" or len(c.params) != 1:
@@ -4230,10 +4249,43 @@ class FnTr:
         self.fail("expression of kind `" + e.kind + "` in Display::fmt")
     # ---- end phase 7
 
+    # ---- phase 8: `fn f(&self / &mut self) -> impl Iterator<Item = T> { S::new(self) }` with `S` a struct whose `Iterator::next` is
+    # translated: `impl Iterator<Item = T>` is `List T` (phase 6), and the iterator value `S::new(self)` coerced to it is the list of
+    # the items `next` yields until `None`: `Rs.collect_iter (S.next fuel) fuel (S.new self)` — fuel-indexed like every loop
+    # (`.error (.panic …)` when `fuel` calls of `next` did not exhaust it). A `&mut self` receiver is only borrowed by `S::new`:
+    # creating the iterator does not change the node, so only the list is returned.
+    def impl_iter_translate(self):
+        it, g = self.item, self.g
+        body = Parser(it.body_toks, it.where).block()
+        e = body.tail
+        if (body.stmts or e is None or e.kind != "call" or e.f.kind != "path" or len(e.f.segs) != 2 or e.f.segs[1] != "new"
+                or len(e.args) != 1 or e.args[0].kind != "path" or e.args[0].segs != ["self"]):
+            self.fail("`impl Iterator` function whose body is not `S::new(self)`")
+        sname = e.f.segs[0]
+        new = [x for x in self.w.items if x.impl_type == sname and x.name == "new" and x.impl_trait is None]
+        nxt = [x for x in self.w.items if x.impl_type == sname and x.name == "next" and x.impl_trait == "Iterator"]
+        if len(new) != 1 or len(nxt) != 1:
+            self.fail(f"`{sname}::new` / `Iterator::next for {sname}` not found")
+        gn, gx = self.w.require(new[0]), self.w.require(nxt[0])
+        g.deps = [gn, gx]
+        if [t for _, t in gx.params] != ["Nat", TYPE_MAP[sname]] or [t for _, t in gn.params] != ["Node"]:
+            self.fail(f"unexpected signature of {sname}::new / next")
+        elem = self.ltype(it.ret.segs[-1][1][0], True)
+        if gx.ret != f"Res ((Option {elem}) × {TYPE_MAP[sname]})":
+            self.fail(f"`{sname}::next` does not yield `{elem}`: " + gx.ret)
+        g.params, g.ret = [("fuel", "Nat"), ("self", "Node")], f"Res (List {elem})"
+        g.text = (f"/-- `{it.impl_type}::{it.name}` (the iterator `{sname}::new(self)` as `impl Iterator`: collected) — src/{it.file} -/\n"
+                  f"def {g.lean_name} (fuel : Nat) (self : Node) : Res (List {elem}) :=\n"
+                  f"  Rs.collect_iter ({gx.lean_name} fuel) fuel ({gn.lean_name} self)\n")
+    # ---- end phase 8
+
     def translate(self):
         it, g = self.item, self.g
         if it.impl_trait == "Display" and it.name == "fmt":    # phase 7
             return self.fmt_translate()
+        if (getattr(it, "phase6", False) and it.file == "tree/iter.rs" and it.ret is not None and it.ret.kind == "tpath"
+                and it.ret.segs[-1][0] == "ImplIterator"):    # phase 8
+            return self.impl_iter_translate()
         self.ctx_shadowed = False
         p = Parser(it.body_toks, it.where)
         body = p.block()
@@ -4416,6 +4468,8 @@ PHASE6_ROOTS = [("value/mod.rs", "Value", n, None, None) for n in
     ("context/mod.rs", "EmptyContext", "default", "Default", None),
     ("context/mod.rs", "EmptyContextWithBuiltinFunctions", "default", "Default", None),
     ("value/display.rs", "Value", "fmt", "Display", None),      # phase 7
+    ("feature_serde/mod.rs", "NodeVisitor", "visit_str", "Visitor", None),      # phase 8
+    ("tree/iter.rs", "Node", "iter", None, None), ("tree/iter.rs", "Node", "iter_operators_mut", None, None),      # phase 8
 ]
 # ---- end phase 6
 SKIPPED_ARMS = []
